@@ -16,7 +16,7 @@ variable (gsp : Nat → Nat → Nat) (pmz : Nat → Nat → Nat → Nat → Nat)
 theorem realloc_inplace (heap p newsize zero : Nat)
     (h : newsize ≤ us p 0 ∧ us p 0 / 2 ≤ newsize ∧ 0 < newsize) :
     _mi_heap_realloc_zero us gsp pmz gen heap p newsize zero = (p, []) := by
-  sorry
+  exact C06L.realloc_zero_inplace us gsp pmz gen heap p newsize zero h
 
 /-- otherwise a new block is allocated; if that succeeds (non-zeroing variant) the first min(old usable, new) bytes
     are copied and the old block is freed exactly once, after the copy -/
@@ -26,39 +26,74 @@ theorem realloc_moved (heap p newsize : Nat) (hp : p ≠ 0) (hn : 0 < newsize)
     _mi_heap_realloc_zero us gsp pmz gen heap p newsize 0 =
       (mi_heap_malloc gsp pmz gen heap newsize,
        [("_mi_memcpy", [mi_heap_malloc gsp pmz gen heap newsize, p, min (us p 0) newsize]), ("mi_free", [p])]) := by
-  sorry
+  rw [C06L.realloc_zero_moved us gsp pmz gen heap p newsize 0 hnot hnew]
+  have hn0 : newsize ≠ 0 := by omega
+  simp [C06L.reallocInit, hp, hn0]
 
 /-- the old block is released at most once, and exactly when a different non-NULL pointer is returned for a non-NULL input -/
 theorem realloc_frees_iff_moved (heap p newsize zero : Nat) :
     let r := _mi_heap_realloc_zero us gsp pmz gen heap p newsize zero
     (r.2.filter (fun e => e.1 == "mi_free")) = (if p ≠ 0 ∧ r.1 ≠ 0 ∧ ¬ (newsize ≤ us p 0 ∧ us p 0 / 2 ≤ newsize ∧ 0 < newsize) then [("mi_free", [p])] else []) := by
-  sorry
+  intro r
+  by_cases hin : newsize ≤ us p 0 ∧ us p 0 / 2 ≤ newsize ∧ 0 < newsize
+  · simp [r, C06L.realloc_zero_inplace us gsp pmz gen heap p newsize zero hin, hin]
+  · by_cases hnew : mi_heap_malloc gsp pmz gen heap newsize = 0
+    · simp [r, C06L.realloc_zero_fail us gsp pmz gen heap p newsize zero hin hnew]
+    · simp only [r, C06L.realloc_zero_moved us gsp pmz gen heap p newsize zero hin hnew, List.filter_append,
+        C06L.reallocInit_no_free, List.nil_append]
+      by_cases hp : p = 0 <;> simp [hp, hnew, hin]
 
 /-- a NULL input behaves as an allocation (usable size of NULL is 0); nothing is copied or freed -/
 theorem realloc_null_is_malloc (heap newsize : Nat) (hus : us 0 0 = 0) :
     (_mi_heap_realloc_zero us gsp pmz gen heap 0 newsize 0).1 = mi_heap_malloc gsp pmz gen heap newsize ∧
     ∀ e ∈ (_mi_heap_realloc_zero us gsp pmz gen heap 0 newsize 0).2, e.1 ≠ "mi_free" ∧ e.1 ≠ "_mi_memcpy" := by
-  sorry
+  have hin : ¬ (newsize ≤ us 0 0 ∧ us 0 0 / 2 ≤ newsize ∧ 0 < newsize) := by
+    rw [hus]; omega
+  by_cases hnew : mi_heap_malloc gsp pmz gen heap newsize = 0
+  · rw [C06L.realloc_zero_fail us gsp pmz gen heap 0 newsize 0 hin hnew]
+    simp [hnew]
+  · rw [C06L.realloc_zero_moved us gsp pmz gen heap 0 newsize 0 hin hnew]
+    refine ⟨rfl, ?_⟩
+    by_cases hn : newsize = 0 <;> simp [C06L.reallocInit, hn]
 
 /-- a zero size still allocates a (minimal) block and releases the old one -/
 theorem realloc_zero_size (heap p : Nat) (hp : p ≠ 0) (hnew : mi_heap_malloc gsp pmz gen heap 0 ≠ 0) :
     (_mi_heap_realloc_zero us gsp pmz gen heap p 0 0).1 = mi_heap_malloc gsp pmz gen heap 0 ∧
     ("mi_free", [p]) ∈ (_mi_heap_realloc_zero us gsp pmz gen heap p 0 0).2 := by
-  sorry
+  have hin : ¬ ((0:Nat) ≤ us p 0 ∧ us p 0 / 2 ≤ 0 ∧ 0 < (0:Nat)) := by omega
+  rw [C06L.realloc_zero_moved us gsp pmz gen heap p 0 0 hin hnew]
+  simp [hp]
 
 /-- mi_expand never moves a block … -/
 theorem expand_never_moves (p newsize : Nat) : mi_expand us p newsize = p ∨ mi_expand us p newsize = 0 := by
-  sorry
+  unfold mi_expand
+  by_cases hp : p = 0
+  · simp [hp]
+  · by_cases hn : newsize > us p 0 <;> simp [hp, hn]
 
 /-- … and succeeds exactly up to the usable size -/
 theorem expand_ok_iff (p newsize : Nat) (hp : p ≠ 0) : mi_expand us p newsize = p ↔ newsize ≤ us p 0 := by
-  sorry
+  unfold mi_expand
+  by_cases hn : newsize > us p 0
+  · simp only [if_neg hp, if_pos hn]
+    constructor
+    · intro e; exact absurd e.symm hp
+    · intro e; omega
+  · simp only [if_neg hp, if_neg hn]
+    constructor
+    · intro _; omega
+    · intro _; trivial
 
 /-- aligned variant, alignment > 8: in place only if it fits, wastes < 50% and (p+offset) is still aligned -/
 theorem realloc_aligned_inplace (heap p newsize alignment offset zero : Nat) (ha : 8 < alignment) (hp : p ≠ 0)
     (h : newsize ≤ us p 0 ∧ (us p 0 + 2^64 - us p 0 / 2) % 2^64 ≤ newsize ∧ ((p + offset) % 2^64) % alignment = 0) :
     mi_heap_realloc_zero_aligned_at us gsp pmz gen rdf pmzd pm bs ps ng pp heap p newsize alignment offset zero = (p, []) := by
-  sorry
+  rw [C06L.two64] at h
+  have ha' : ¬ alignment ≤ 8 := by omega
+  have hc : ((newsize ≤ us p 0) ∧ (newsize ≥ (((us p 0 + 18446744073709551616 - (us p 0 / 2))) % 18446744073709551616))) ∧ (((((p + offset)) % 18446744073709551616) % alignment) = 0) :=
+    ⟨⟨h.1, h.2.1⟩, h.2.2⟩
+  unfold mi_heap_realloc_zero_aligned_at mi_usable_size
+  simp only [if_neg ha', if_neg hp, if_pos hc]
 
 /-- aligned variant: a failing re-allocation leaves the old block alone (no free, no copy of the old block) -/
 theorem realloc_aligned_fail_keeps_old (heap p newsize alignment offset zero : Nat) (ha : 8 < alignment) (hp : p ≠ 0)
@@ -67,7 +102,17 @@ theorem realloc_aligned_fail_keeps_old (heap p newsize alignment offset zero : N
     (mi_heap_realloc_zero_aligned_at us gsp pmz gen rdf pmzd pm bs ps ng pp heap p newsize alignment offset zero).1 = 0 ∧
     (mi_heap_realloc_zero_aligned_at us gsp pmz gen rdf pmzd pm bs ps ng pp heap p newsize alignment offset zero).2 =
       (mi_heap_malloc_aligned_at gsp rdf pmzd pm bs ps ng pmz gen pp us heap newsize alignment offset).2 := by
-  sorry
+  rw [C06L.two64] at hnot
+  have ha' : ¬ alignment ≤ 8 := by omega
+  have hc : ¬ (((newsize ≤ us p 0) ∧ (newsize ≥ (((us p 0 + 18446744073709551616 - (us p 0 / 2))) % 18446744073709551616))) ∧ (((((p + offset)) % 18446744073709551616) % alignment) = 0)) :=
+    fun hc => hnot ⟨hc.1.1, hc.1.2, hc.2⟩
+  unfold mi_heap_realloc_zero_aligned_at mi_usable_size
+  simp only [if_neg ha', if_neg hp, if_neg hc]
+  generalize mi_heap_malloc_aligned_at gsp rdf pmzd pm bs ps ng pmz gen pp us heap newsize alignment offset = a at hfail
+  obtain ⟨a1, a2⟩ := a
+  simp only at hfail
+  subst hfail
+  simp
 
 /-- aligned variant: on a successful move the copy of min(old usable, new) bytes precedes the single free of the old block -/
 theorem realloc_aligned_moved (heap p newsize alignment offset : Nat) (ha : 8 < alignment) (hp : p ≠ 0)
@@ -76,7 +121,21 @@ theorem realloc_aligned_moved (heap p newsize alignment offset : Nat) (ha : 8 < 
     let a := mi_heap_malloc_aligned_at gsp rdf pmzd pm bs ps ng pmz gen pp us heap newsize alignment offset
     mi_heap_realloc_zero_aligned_at us gsp pmz gen rdf pmzd pm bs ps ng pp heap p newsize alignment offset 0 =
       (a.1, a.2 ++ [("_mi_memcpy_aligned", [a.1, p, min (us p 0) newsize]), ("mi_free", [p])]) := by
-  sorry
+  dsimp only
+  rw [C06L.two64] at hnot
+  have ha' : ¬ alignment ≤ 8 := by omega
+  have hc : ¬ (((newsize ≤ us p 0) ∧ (newsize ≥ (((us p 0 + 18446744073709551616 - (us p 0 / 2))) % 18446744073709551616))) ∧ (((((p + offset)) % 18446744073709551616) % alignment) = 0)) :=
+    fun hc => hnot ⟨hc.1.1, hc.1.2, hc.2⟩
+  have hmin : (if newsize > us p 0 then us p 0 else newsize) = min (us p 0) newsize := by
+    split <;> omega
+  unfold mi_heap_realloc_zero_aligned_at mi_usable_size
+  simp only [if_neg ha', if_neg hp, if_neg hc, hmin]
+  revert hok
+  generalize mi_heap_malloc_aligned_at gsp rdf pmzd pm bs ps ng pmz gen pp us heap newsize alignment offset = a
+  obtain ⟨a1, a2⟩ := a
+  intro hok
+  simp only at hok
+  simp [hok]
 
 /-- non-vacuity -/
 example : (100 : Nat) ≤ 112 ∧ 112 / 2 ≤ 100 ∧ 0 < 100 := by decide
